@@ -780,7 +780,12 @@ fn run_mux_case(h: &H, out: &mut Out, idx: &str, case: &MuxCase) {
             if badver[p] {
                 fail(out, "bad_version_accepted", format!("caller {} returned frame #{} although the first frame with its id (#{}) had a wrong version", c, t, p), &ids_s);
             } else if t != p {
-                fail(out, "not_first_response", format!("caller {} returned frame #{}, the first frame carrying its id was #{}", c, t, p), &ids_s);
+                // on the TCP clients a notify-flagged frame with an in-flight id may or may not count as the
+                // response (the property is silent: there is no subscriber there): accept either reading
+                let strict = meta.iter().position(|m| m.0 == Some(c) && !m.1);
+                if Some(t) != strict {
+                    fail(out, "not_first_response", format!("caller {} returned frame #{}, the first frame carrying its id was #{}", c, t, p), &ids_s);
+                }
             }
         }
     }
@@ -1576,22 +1581,27 @@ fn run_life_case(h: &H, out: &mut Out, idx: &str, kind: usize, seed: u64) {
             }
             "resubscribe" if kind == 2 => {
                 if let Cl::W(w) = &s.cl {
-                    let rx1 = w.subscribe_notifies();
+                    // the first receiver stays alive the whole time: only the explicit unsubscribe may free the slot
+                    let mut rx1 = w.subscribe_notifies().ok();
                     let second = w.subscribe_notifies().is_err(); // a live subscription is not replaced silently
                     s.send(Cmd::Send(vec![response(77, true, 501, -1)]));
-                    let got1 = rx1.ok().and_then(|mut rx| h.rt.block_on(async { tokio::time::timeout(call_watchdog(), rx.recv()).await.ok().flatten() }));
+                    let got1 = match rx1.as_mut() {
+                        Some(rx) => h.rt.block_on(async { tokio::time::timeout(call_watchdog(), rx.recv()).await.ok().flatten() }),
+                        None => None,
+                    };
                     w.unsubscribe_notifies();
                     s.send(Cmd::Send(vec![response(77, true, 502, -1)])); // nobody listens: dropped
                     let rx2 = w.subscribe_notifies();
                     s.send(Cmd::Send(vec![response(77, true, 503, -1)]));
                     let got2 = rx2.ok().and_then(|mut rx| h.rt.block_on(async {
-                        // 502 must not show up late; the first thing the new subscriber sees is 503 (502 may only have been dropped)
+                        // the notifications now go to the new subscriber (502 may or may not have been dropped before it attached)
                         tokio::time::timeout(call_watchdog(), rx.recv()).await.ok().flatten()
                     }));
+                    drop(rx1);
                     let t1 = got1.and_then(|m| serde_json::from_slice::<Value>(&m.body).ok()).and_then(|v| tag_of(&v));
                     let t2 = got2.and_then(|m| serde_json::from_slice::<Value>(&m.body).ok()).and_then(|v| tag_of(&v));
                     if !second || t1 != Some(501) || !(t2 == Some(503) || t2 == Some(502)) {
-                        out.oracle_fail("mux.ws.life.resubscribe", &format!("subscribe / unsubscribe / subscribe: second live subscribe refused = {}, first subscriber got {:?}, new subscriber got {:?}", second, t1, t2), &ops);
+                        out.oracle_fail("mux.ws.life.resubscribe", &format!("subscribe / unsubscribe / subscribe with the first receiver still alive: second live subscribe refused = {}, first subscriber got {:?}, the subscriber registered after unsubscribe got {:?}", second, t1, t2), &ops);
                         verdict = "bad".into();
                     }
                     w.unsubscribe_notifies();
@@ -2029,9 +2039,19 @@ fn run_tmo_case(h: &H, out: &mut Out, idx: &str, kind: usize, mode: &str, jitter
     out.begin(&op);
     let ops = [format!("{} jitter_ms={}", op, jitter_ms)];
     let Ok(mut s) = h.open(kind) else { return };
-    let t_short = Duration::from_millis(if mode == "race" { 60 } else { 150 });
+    // `late.<v>` / `zero.<v>` / `early.<v>`: through the `_with_timeout` twin of entry point <v>
+    let (mode, via) = match mode.split_once('.') {
+        Some((m, v)) => (m, v.parse::<usize>().ok()),
+        None => (mode, None),
+    };
+    let zero = mode == "zero";
+    let mode = if zero { "late" } else { mode };
+    let t_short = if zero { Duration::ZERO } else { Duration::from_millis(if mode == "race" { 60 } else if via.is_some() { 40 } else { 150 }) };
     let t0 = Instant::now();
-    s.call(h, 0, req_body(0), Some(if mode == "early" { CALL_TIMEOUT } else { t_short }));
+    match via {
+        Some(v) => s.call_v(h, 0, v, Some(if mode == "early" { CALL_TIMEOUT } else { t_short })),
+        None => s.call(h, 0, req_body(0), Some(if mode == "early" { CALL_TIMEOUT } else { t_short })),
+    }
     let id0 = match s.read(1) {
         Ok(f) => f[0].h.id,
         Err(e) => {
@@ -2048,7 +2068,7 @@ fn run_tmo_case(h: &H, out: &mut Out, idx: &str, kind: usize, mode: &str, jitter
             let _ = s.srv_done();
         }
         "early" => {
-            s.send(Cmd::Send(vec![response(id0, false, 0, 0)]));
+            s.send(Cmd::Send(vec![response_v(id0, false, 0, 0, via.map(|v| variant_for(kind, v)).unwrap_or(0))]));
             let _ = s.srv_done();
         }
         _ => {
@@ -3221,6 +3241,17 @@ fn main() {
             for mode in ["late", "early"] {
                 run_tmo_case(&h, &mut out, &format!("t{t}"), kind, mode, 0);
                 t += 1;
+            }
+            // every `_with_timeout` twin: an unanswered call times out (also with a zero duration), an
+            // answered one returns its answer
+            for v in (1..18).step_by(2) {
+                if kind == 2 && (6..10).contains(&v) {
+                    continue;
+                }
+                for m in [["late", "zero"][(v / 2 + kind) % 2], "early"] {
+                    run_tmo_case(&h, &mut out, &format!("t{t}"), kind, &format!("{}.{}", m, v), 0);
+                    t += 1;
+                }
             }
             let races = if args.thorough() { 120 } else { 8 };
             for _ in 0..races {
